@@ -43,6 +43,38 @@ fn k_c08_avx2_score_u8_r2_m3() {
     assert!(scores.matrix()[row][c] == want);
 }
 
+/// Row SUB-RANGE not starting at 0 (what the scanner does for every block but the first): rows 1..2 of a 2-row sequence,
+/// width 2; the output matrix has exactly one row and the kernel must write that row only.
+#[kani::proof]
+#[kani::unwind(34)]
+#[kani::stub(std::arch::x86_64::_mm256_shuffle_epi8, m256_shuffle_epi8)]
+#[kani::stub(std::arch::x86_64::_mm256_adds_epu8, m256_adds_epu8)]
+#[kani::stub(std::arch::x86_64::_mm256_broadcastsi128_si256, m256_broadcastsi128_si256)]
+#[kani::stub(std::arch::x86_64::_mm256_stream_si256, m256_stream_si256)]
+#[kani::stub(std::arch::x86_64::_mm256_load_si256, m256_load_si256)]
+#[kani::stub(std::arch::x86_64::_mm_sfence, m_sfence)]
+fn k_c08_avx2_score_u8_rows1to2_m2() {
+    const R: usize = 2; const M: usize = 2;
+    let mut sm = unsafe { DenseMatrix::<Nucleotide, U32>::uninitialized(R + M - 1) };
+    let mut r = 0;
+    while r < R + M - 1 { let mut c = 0; while c < 32 { sm[r][c] = any_nuc(); c += 1; } r += 1; }
+    let seq = StripedSequence::<Dna, U32>::with_wrap_unchecked(sm, 32 * R, M - 1);
+    let mut pm = unsafe { DenseMatrix::<u8, U5>::uninitialized(M) };
+    let mut r = 0;
+    while r < M { let mut c = 0; while c < 5 { pm[r][c] = kani::any(); c += 1; } r += 1; }
+    let mut scores = StripedScores::<u8, U32>::empty();
+    // buffer reused after the previous (2-row) block; also avoids growing through `DenseMatrix::resize` (CBMC GenericArray crash)
+    *scores.matrix_mut() = unsafe { DenseMatrix::<u8, U32>::uninitialized(2) };
+    scores.resize(2, 32 * R + 1 - M);
+    Avx2::score_u8_rows_into_shuffle::<Dna, _, _>(&pm, &seq, 1..2, &mut scores);
+    assert!(scores.matrix().rows() == 1);
+    let c: usize = kani::any();
+    kani::assume(c < 32);
+    let want: u32 = pm[0][seq.matrix()[1][c].as_index()] as u32 + pm[1][seq.matrix()[2][c].as_index()] as u32;
+    let want = if want > 255 { 255 } else { want } as u8;
+    assert!(scores.matrix()[0][c] == want);
+}
+
 /// C01 (bounded, half a): the AVX2 permute kernel (DNA) with ONE matrix row whose 5 cells are arbitrary non-NaN f32 bit patterns:
 /// the table look-up and the 128-bit lane un-permutation are right for every symbol in every one of the 32 columns.
 #[kani::proof]
